@@ -5,6 +5,7 @@ extracted from the conversion table (C01) and compared with the documented 0/1 d
 from astdb import AnalysisBroken
 from interp import Interp, Obj, Cell, Thrown
 from kernels import KernelHooks
+from gslmodel import GslHooks
 from poly import Poly, CPoly
 import basis
 
@@ -19,7 +20,7 @@ FACTORIES = {
 }
 
 
-class FactoryHooks(KernelHooks):
+class FactoryHooks(GslHooks):
     """storage obtained by the factory (from new[] or from the block cache, which hands back blocks released earlier)
     holds arbitrary previous contents: named symbols OLD<k>, so that a component that is accumulated onto, or never
     written, shows up in the result"""
@@ -30,12 +31,12 @@ class FactoryHooks(KernelHooks):
                 reg.make = lambda k, nm=reg.name: Poly.var('OLD_%s_%d' % (nm.replace('#', ''), k))
 
     def on_new(self, it, node, count, elem_type):
-        p = KernelHooks.on_new(self, it, node, count, elem_type)
+        p = GslHooks.on_new(self, it, node, count, elem_type)
         self._old_contents()
         return p
 
     def override_call(self, it, fdecl, node, args, this_cell):
-        r = KernelHooks.override_call(self, it, fdecl, node, args, this_cell)
+        r = GslHooks.override_call(self, it, fdecl, node, args, this_cell)
         if fdecl['name'] == 'squids::SU_vector::alloc_aligned':
             self._old_contents()
         return r
